@@ -1,16 +1,32 @@
 package c19
 
 // C19 correspondence + monitors: the REAL middleware stack (app.IBCKeeper.Router route "transfer": fx middleware over
-// the ibc-go transfer module) with constructed packets on real open channels (helpers.BaseSuite.GenIBCTransferChannel).
-// IBC core is mimicked: receive callback inside a CacheContext committed only on a successful acknowledgement;
-// acknowledgement / timeout processed only while the packet commitment exists, which is deleted first; a callback error
-// reverts the whole step.  EVM-originated sends go through the real crosschain precompile (`crossChain`, signed
-// MsgEthereumTx executed by EvmKeeper.EthereumTx, as the repo's own precompile tests do).
+// the ibc-go transfer module) with constructed packets on real open channels (helpers.BaseSuite.GenIBCTransferChannel)
+// whose LOCAL and COUNTERPARTY channel ids are chosen independently (crossed ids, equal ids, two counterparties that
+// use the same id).  IBC core is mimicked: receive callback inside a CacheContext committed only on a successful
+// acknowledgement; acknowledgement / timeout processed only while the packet commitment exists, which is deleted
+// first; a callback error reverts the whole step.  EVM-originated sends go through the real crosschain precompile
+// (`crossChain`, signed MsgEthereumTx executed by EvmKeeper.EthereumTx); the packet handed back to the callbacks is
+// rebuilt and compared with the commitment IBC core stored.
+//
+// op lines (channels are named by the number of their LOCAL id `channel-<l>`):
+//   chan l r                          local channel-l is connected to the counterparty's channel-r
+//   seq l n                           the next send sequence of channel l becomes n (never decreases)
+//   migrate                           the transfer module's REAL MigrateDenomMetadata migration (metadata for every stored trace)
+//   meta l                            bank metadata exists for the aliased voucher of channel l (what the transfer
+//                                     module's InitGenesis / MigrateDenomMetadata write for every denom trace)
+//   fund a tok l amt                  tok F|N|U: bank coins; A: ERC-20 of the aliased base token + voucher liquidity on l
+//   recv l tok kind to amt memo snd   inbound packet (tok F|N|U returning home, V|X|A vouchers; kind hex|bech|bad)
+//   send l a tok amt                  EVM-started transfer through the precompile (tok F|A|N)
+//   csend l a tok amt                 cosmos-side MsgTransfer (tok F|N|U)
+//   ack l seq ok|err   /  timeout l seq
 
 import (
+	"bytes"
 	"fmt"
 	"math/big"
 	"math/rand"
+	"os"
 	"sort"
 	"strconv"
 	"strings"
@@ -18,6 +34,8 @@ import (
 
 	sdkmath "cosmossdk.io/math"
 	sdk "github.com/cosmos/cosmos-sdk/types"
+	banktypes "github.com/cosmos/cosmos-sdk/x/bank/types"
+	ibctransferkeeper "github.com/cosmos/ibc-go/v8/modules/apps/transfer/keeper"
 	transfertypes "github.com/cosmos/ibc-go/v8/modules/apps/transfer/types"
 	clienttypes "github.com/cosmos/ibc-go/v8/modules/core/02-client/types"
 	channeltypes "github.com/cosmos/ibc-go/v8/modules/core/04-channel/types"
@@ -36,25 +54,38 @@ import (
 	"fxverif/harness/hx"
 )
 
-const remoteSender = "cosmos1remotesender"
+const (
+	port     = "transfer"
+	baseA    = "bo"  // aliased base denom (ERC-20 pair on the base, one ibc alias per channel)
+	remoteA  = "ubo" // its name on the counterparty
+	natD     = "nat" // native non-FX coin with an ERC-20 pair
+	unregD   = "uuu" // native non-FX coin without a pair
+	remoteV  = "ubi" // foreign coin whose voucher has an ERC-20 pair of its own
+	remoteX  = "ufor"
+	nChan    = 3
+	nSenders = 2
+)
 
-// SLOAD(0)+1 -> SSTORE(0); STOP  /  REVERT
+func remoteSender(k int) string { return fmt.Sprintf("cosmos1remotesender%d", k) }
+
+// SLOAD(0)+1 -> SSTORE(0); CALLER -> SSTORE(1); STOP   /   REVERT
 var (
-	codeCount  = []byte{0x60, 0x00, 0x54, 0x60, 0x01, 0x01, 0x60, 0x00, 0x55, 0x00}
+	codeCount  = []byte{0x60, 0x00, 0x54, 0x60, 0x01, 0x01, 0x60, 0x00, 0x55, 0x33, 0x60, 0x01, 0x55, 0x00}
 	codeRevert = []byte{0x60, 0x01, 0x60, 0x00, 0x55, 0x60, 0x00, 0x60, 0x00, 0xfd}
 )
 
 type chanT struct {
-	port, id          string
-	baseOut, ibcOut   string // outbound bridged token: base denom with an IBC alias on this channel
-	erc20Out          common.Address
-	ibcIn, packetIn   string // inbound bridged voucher: ERC-20 pair registered on the voucher denom
-	erc20In           common.Address
-	ibcX              string
+	l, r   int    // local / counterparty channel number
+	id, cp string // channel-<l>, channel-<r>
+	vA     string // voucher of the aliased token on this channel (alias of baseA)
+	vV     string // voucher with its own ERC-20 pair
+	vX     string // unregistered voucher
+	ercV   common.Address
+	meta   bool
 }
 
 type sent struct {
-	ch     int
+	l      int
 	seq    uint64
 	from   int
 	tok    string
@@ -69,11 +100,34 @@ type env struct {
 	s       *hx.Suite
 	rng     *rand.Rand
 	out     *hx.Out
-	chans   []chanT
+	chans   map[int]*chanT
+	order   []int // local channel numbers in creation order
+	keyName map[string][2]uint64 // raw relation key -> (local channel, sequence) it was computed for
 	signers map[int]*helpers.Signer
 	addrs   map[int]common.Address
-	okC, revC common.Address
+	okC     common.Address
+	revC    common.Address
+	ercBase common.Address
+	ercNat  common.Address
 	sents   []*sent
+	callers map[common.Address]map[string]bool // memo-call sender -> set of "local channel/original sender"
+	derived map[common.Address]string           // every address IntermediateSender can produce here -> "<channel number>/<sender>"
+	pending map[string]bool
+}
+
+// pendingKnown: violation classes that are genuine defects of /repo proposed in fixes/C19-known.json but not (yet) listed
+// in the shared known_findings.json; they are counted (histogram `pending-known:<class>`) and kept in stats.extra with
+// their replay instead of failing the run.  Controlled by spec/C19.json `env.C19_PENDING_KNOWN`.
+func (e *env) violate(class, desc string) {
+	if e.pending[class] {
+		e.out.Count("pending-known:" + class)
+		k := "pending-known:" + class
+		if _, ok := e.out.Stats.Extra[k]; !ok {
+			e.out.Stats.Extra[k] = desc
+		}
+		return
+	}
+	e.out.Violate(desc)
 }
 
 func (e *env) addr(id int) common.Address {
@@ -98,36 +152,122 @@ func (e *env) ethTx(sg *helpers.Signer, to common.Address, value *big.Int, data 
 	return e.s.App.EvmKeeper.EthereumTx(ctx, tx)
 }
 
-func (e *env) erc(c int, a common.Address) int64 {
-	ch := e.chans[c]
-	t := int64(0)
-	for _, tk := range []common.Address{ch.erc20Out, ch.erc20In} {
-		b, err := e.s.App.EvmKeeper.ERC20BalanceOf(e.s.Ctx, tk, a)
-		if err != nil {
-			panic(err)
-		}
-		t += b.Int64()
+func (e *env) ercOf(tk, a common.Address) int64 {
+	if tk == (common.Address{}) {
+		return 0
 	}
-	return t
+	b, err := e.s.App.EvmKeeper.ERC20BalanceOf(e.s.Ctx, tk, a)
+	if err != nil {
+		panic(err)
+	}
+	return b.Int64()
 }
 
-func (e *env) bal(a common.Address, denom string) int64 {
-	return e.s.App.BankKeeper.GetBalance(e.s.Ctx, a.Bytes(), denom).Amount.Int64()
+// totalSupply() of an ERC-20 contract of the harness (0 for "no contract")
+func (e *env) supplyOf(tk common.Address) int64 {
+	if tk == (common.Address{}) {
+		return 0
+	}
+	var res struct{ Value *big.Int }
+	if err := e.s.App.EvmKeeper.QueryContract(e.s.Ctx, e.okC, tk, contract.GetFIP20().ABI, "totalSupply", &res); err != nil {
+		panic(err)
+	}
+	return res.Value.Int64()
 }
 
-func (e *env) rel() string {
-	var xs [][2]uint64
-	for _, kv := range hx.RawPrefix(e.s.Ctx, e.s.App.GetKey(erc20types.StoreKey), erc20types.KeyPrefixIBCTransfer) {
-		k := string(kv[0][1:])
-		i := strings.LastIndexByte(k, '/')
-		seq, _ := strconv.ParseUint(k[i+1:], 10, 64)
-		c := uint64(99)
-		for j, ch := range e.chans {
-			if ch.id == k[:i] {
-				c = uint64(j)
-			}
+// checkLedger: every ERC-20 token in existence is backed one to one by its coin in the erc20 module account
+// (Lean: erc20_supply_backed)
+func (e *env) checkLedger(after string) {
+	mod := e.modAddr(erc20types.ModuleName)
+	chk := func(name string, tk common.Address, denom string) {
+		if sup, esc := e.supplyOf(tk), e.bal(mod, denom); sup != esc {
+			e.out.Violate(fmt.Sprintf("ledger: ERC-20 supply of %s is %d but the erc20 module escrows %d of its coin after `%s`", name, sup, esc, after))
 		}
-		xs = append(xs, [2]uint64{c, seq})
+	}
+	chk("the aliased token", e.ercBase, baseA)
+	chk("the native coin's token", e.ercNat, natD)
+	for _, l := range e.order {
+		chk(fmt.Sprintf("the voucher token of channel %d", l), e.chans[l].ercV, e.chans[l].vV)
+	}
+}
+
+func (e *env) bal(a []byte, denom string) int64 {
+	if denom == "" {
+		return 0
+	}
+	return e.s.App.BankKeeper.GetBalance(e.s.Ctx, a, denom).Amount.Int64()
+}
+
+// snapshot of everything an account holds: all bank coins and the ERC-20 balance in every token contract of the harness
+func (e *env) holdings(a common.Address) map[string]int64 {
+	m := map[string]int64{}
+	for _, c := range e.s.App.BankKeeper.GetAllBalances(e.s.Ctx, a.Bytes()) {
+		m["bank:"+c.Denom] = c.Amount.Int64()
+	}
+	m["erc:base"] = e.ercOf(e.ercBase, a)
+	m["erc:nat"] = e.ercOf(e.ercNat, a)
+	for _, l := range e.order {
+		m[fmt.Sprintf("erc:v%d", l)] = e.ercOf(e.chans[l].ercV, a)
+	}
+	return m
+}
+
+// delta b-a restricted to non-zero entries, canonical text
+func delta(a, b map[string]int64) (map[string]int64, string) {
+	d := map[string]int64{}
+	for k, v := range b {
+		if v != a[k] {
+			d[k] = v - a[k]
+		}
+	}
+	for k, v := range a {
+		if _, ok := b[k]; !ok && v != 0 {
+			d[k] = -v
+		}
+	}
+	var ks []string
+	for k := range d {
+		ks = append(ks, k)
+	}
+	sort.Strings(ks)
+	var ss []string
+	for _, k := range ks {
+		kk := k
+		if i := strings.Index(kk, "ibc/"); i >= 0 && len(kk) > i+12 {
+			kk = kk[:i+12]
+		}
+		ss = append(ss, fmt.Sprintf("%s%+d", kk, d[k]))
+	}
+	return d, strings.Join(ss, ",")
+}
+
+// relKey: the raw store key of the tracking record of (local channel l, sequence), computed by the REAL key function
+func (e *env) relKey(l int, seq uint64) string {
+	k := string(erc20types.GetIBCTransferKey(e.chans[l].id, seq))
+	if _, ok := e.keyName[k]; !ok {
+		e.keyName[k] = [2]uint64{uint64(l), seq}
+	}
+	return k
+}
+
+// relSet: the raw keys of all tracking records
+func (e *env) relSet() map[string]bool {
+	m := map[string]bool{}
+	for _, kv := range hx.RawPrefix(e.s.Ctx, e.s.App.GetKey(erc20types.StoreKey), erc20types.KeyPrefixIBCTransfer) {
+		m[string(kv[0])] = true
+	}
+	return m
+}
+
+// relStr names every raw key by the (local channel, sequence) it belongs to (99/0 = a key nobody asked for)
+func (e *env) relStr(m map[string]bool) string {
+	var xs [][2]uint64
+	for k := range m {
+		if n, ok := e.keyName[k]; ok {
+			xs = append(xs, n)
+		} else {
+			xs = append(xs, [2]uint64{99, 0})
+		}
 	}
 	sort.Slice(xs, func(i, j int) bool { return xs[i][0] < xs[j][0] || (xs[i][0] == xs[j][0] && xs[i][1] < xs[j][1]) })
 	if len(xs) == 0 {
@@ -140,8 +280,50 @@ func (e *env) rel() string {
 	return strings.Join(ss, ",")
 }
 
-func (e *env) hasRel(c int, seq uint64) bool {
-	return e.s.Ctx.KVStore(e.s.App.GetKey(erc20types.StoreKey)).Has(erc20types.GetIBCTransferKey(e.chans[c].id, seq))
+func (e *env) rel() string { return e.relStr(e.relSet()) }
+
+// relFrame: after == before with exactly `add` added / `del` removed ("" = none)
+func relFrame(before, after map[string]bool, add, del string) bool {
+	want := map[string]bool{}
+	for k := range before {
+		want[k] = true
+	}
+	if add != "" {
+		want[add] = true
+	}
+	if del != "" {
+		delete(want, del)
+	}
+	if len(want) != len(after) {
+		return false
+	}
+	for k := range want {
+		if !after[k] {
+			return false
+		}
+	}
+	return true
+}
+
+// checkRecords: in every state the tracking records are exactly those of the in-flight EVM-originated transfers of a
+// token other than FX (Lean: relation_records_are_inflight)
+func (e *env) checkRecords(after string) {
+	cur := e.relSet()
+	live := map[string]bool{}
+	for _, x := range e.sents {
+		if x.evm && x.tok != "F" && x.done == "" {
+			k := e.relKey(x.l, x.seq)
+			live[k] = true
+			if !cur[k] {
+				e.out.Violate(fmt.Sprintf("relation: the in-flight EVM-originated transfer on local channel %d sequence %d has no tracking record after `%s` (records: %s)", x.l, x.seq, after, e.relStr(cur)))
+			}
+		}
+	}
+	for k := range cur {
+		if !live[k] {
+			e.out.Violate(fmt.Sprintf("relation: tracking record %s belongs to no in-flight EVM-originated transfer after `%s`", e.relStr(map[string]bool{k: true}), after))
+		}
+	}
 }
 
 func (e *env) marker() int64 {
@@ -149,28 +331,73 @@ func (e *env) marker() int64 {
 	return new(big.Int).SetBytes(h.Bytes()).Int64()
 }
 
-func (e *env) setup() {
+func (e *env) lastCaller() common.Address {
+	h := e.s.App.EvmKeeper.GetState(e.s.Ctx, e.okC, common.BigToHash(big.NewInt(1)))
+	return common.BytesToAddress(h.Bytes())
+}
+
+func (e *env) callerLabel() string {
+	a := e.lastCaller()
+	if a == (common.Address{}) {
+		return "-"
+	}
+	if l, ok := e.derived[a]; ok {
+		return l
+	}
+	return "?"
+}
+
+func voucher(l int, remote string) string {
+	return transfertypes.ParseDenomTrace(fmt.Sprintf("%s/channel-%d/%s", port, l, remote)).IBCDenom()
+}
+
+func (e *env) setup(ls, cps []int) {
 	s := e.s
-	for c := 0; c < 2; c++ {
-		port, id := s.GenIBCTransferChannel()
-		s.App.IBCKeeper.ChannelKeeper.SetNextSequenceSend(s.Ctx, port, id, 1)
-		ch := chanT{port: port, id: id}
-		ch.baseOut = fmt.Sprintf("bo%d", c)
-		trOut := transfertypes.ParseDenomTrace(fmt.Sprintf("%s/%s/ubo%d", port, id, c))
-		ch.ibcOut = trOut.IBCDenom()
-		s.App.IBCTransferKeeper.SetDenomTrace(s.Ctx, trOut)
-		if err := s.App.EthKeeper.SetToken(s.Ctx, "Out Token", strings.ToUpper(ch.baseOut), 18, ch.ibcOut); err != nil {
-			panic(err)
+	var aliases []string
+	e.chans = map[int]*chanT{}
+	for i, l := range ls {
+		s.App.IBCKeeper.ChannelKeeper.SetNextChannelSequence(s.Ctx, uint64(l))
+		_, id := s.GenIBCTransferChannel()
+		if id != fmt.Sprintf("channel-%d", l) {
+			panic("unexpected channel id " + id)
 		}
-		ch.erc20Out = s.AddTokenPair(ch.baseOut, true)
-		ch.packetIn = fmt.Sprintf("ubi%d", c)
-		ch.ibcIn = transfertypes.ParseDenomTrace(fmt.Sprintf("%s/%s/%s", port, id, ch.packetIn)).IBCDenom()
-		ch.erc20In = s.AddTokenPair(ch.ibcIn, true)
-		ch.ibcX = transfertypes.ParseDenomTrace(fmt.Sprintf("%s/%s/ufor", port, id)).IBCDenom()
-		e.chans = append(e.chans, ch)
-		// the derived memo-call sender must exist as an account for CallEVM (GetSequence)
-		is := ibcmwtypes.IntermediateSender(port, id, remoteSender)
-		s.App.AccountKeeper.SetAccount(s.Ctx, s.App.AccountKeeper.NewAccountWithAddress(s.Ctx, is.Bytes()))
+		ch := &chanT{l: l, r: cps[i], id: id, cp: fmt.Sprintf("channel-%d", cps[i])}
+		c, found := s.App.IBCKeeper.ChannelKeeper.GetChannel(s.Ctx, port, id)
+		if !found {
+			panic("channel not found")
+		}
+		c.Counterparty.ChannelId = ch.cp
+		s.App.IBCKeeper.ChannelKeeper.SetChannel(s.Ctx, port, id, c)
+		s.App.IBCKeeper.ChannelKeeper.SetNextSequenceSend(s.Ctx, port, id, 1)
+		ch.vA, ch.vV, ch.vX = voucher(l, remoteA), voucher(l, remoteV), voucher(l, remoteX)
+		s.App.IBCTransferKeeper.SetDenomTrace(s.Ctx, transfertypes.ParseDenomTrace(fmt.Sprintf("%s/%s/%s", port, id, remoteA)))
+		aliases = append(aliases, ch.vA)
+		e.chans[l] = ch
+		e.order = append(e.order, l)
+		e.out.Emit(fmt.Sprintf("chan %d %d", ch.l, ch.r), "ok")
+	}
+	if err := s.App.EthKeeper.SetToken(s.Ctx, "Out Token", strings.ToUpper(baseA), 18, aliases...); err != nil {
+		panic(err)
+	}
+	e.ercBase = s.AddTokenPair(baseA, true)
+	e.ercNat = s.AddTokenPair(natD, true)
+	for _, l := range e.order {
+		e.chans[l].ercV = s.AddTokenPair(e.chans[l].vV, true)
+	}
+	// every address a memo call can be made from here must exist as an account (CallEVM reads its sequence)
+	nums := map[int]bool{}
+	for n := 0; n < 12; n++ {
+		nums[n] = true
+	}
+	for _, ch := range e.chans {
+		nums[ch.l], nums[ch.r] = true, true
+	}
+	for n := range nums {
+		for k := 0; k < nSenders; k++ {
+			is := ibcmwtypes.IntermediateSender(port, fmt.Sprintf("channel-%d", n), remoteSender(k))
+			s.App.AccountKeeper.SetAccount(s.Ctx, s.App.AccountKeeper.NewAccountWithAddress(s.Ctx, is.Bytes()))
+			e.derived[is] = fmt.Sprintf("%d/%d", n, k)
+		}
 	}
 	e.okC = common.BytesToAddress([]byte("c19-ok-contract-xxxx"))
 	e.revC = common.BytesToAddress([]byte("c19-rev-contract-xxx"))
@@ -182,21 +409,91 @@ func (e *env) setup() {
 	}
 }
 
-func (e *env) fund(id int, tok string, c int, amt int64) {
+// meta: what the transfer module's InitGenesis and its MigrateDenomMetadata migration do for every stored denom trace
+func (e *env) meta(l int) {
+	ch := e.chans[l]
+	trace := transfertypes.ParseDenomTrace(fmt.Sprintf("%s/%s/%s", port, ch.id, remoteA))
+	if !e.s.App.BankKeeper.HasDenomMetaData(e.s.Ctx, ch.vA) {
+		e.s.App.BankKeeper.SetDenomMetaData(e.s.Ctx, banktypes.Metadata{
+			Description: fmt.Sprintf("IBC token from %s", trace.GetFullDenomPath()),
+			DenomUnits:  []*banktypes.DenomUnit{{Denom: trace.BaseDenom, Exponent: 0}},
+			Base:        trace.IBCDenom(), Display: trace.GetFullDenomPath(),
+			Name: fmt.Sprintf("%s IBC token", trace.GetFullDenomPath()), Symbol: strings.ToUpper(trace.BaseDenom),
+		})
+	}
+	ch.meta = true
+	e.out.Emit(fmt.Sprintf("meta %d", l), "ok")
+	e.out.Count("meta")
+}
+
+// migrate: the REAL migration of the transfer module (consensus version 4 -> 5, run by an upgrade from ibc-go 7)
+func (e *env) migrate() {
+	if err := ibctransferkeeper.NewMigrator(e.s.App.IBCTransferKeeper).MigrateDenomMetadata(e.s.Ctx); err != nil {
+		panic(err)
+	}
+	for _, ch := range e.chans {
+		ch.meta = true
+	}
+	e.out.Emit("migrate", "ok")
+	e.out.Count("migrate")
+}
+
+// seqset: the channel's next send sequence jumps forward (as after many transfers)
+func (e *env) seqset(l int, n uint64) {
+	ch := e.chans[l]
+	cur, _ := e.s.App.IBCKeeper.ChannelKeeper.GetNextSequenceSend(e.s.Ctx, port, ch.id)
+	if n > cur {
+		e.s.App.IBCKeeper.ChannelKeeper.SetNextSequenceSend(e.s.Ctx, port, ch.id, n)
+	}
+	e.out.Emit(fmt.Sprintf("seq %d %d", l, n), "ok")
+	e.out.Count("seq-jump")
+}
+
+func bankDenom(tok string, ch *chanT) string {
+	switch tok {
+	case "F":
+		return fxtypes.DefaultDenom
+	case "N":
+		return natD
+	case "U":
+		return unregD
+	case "A":
+		return ch.vA
+	case "V":
+		return ch.vV
+	case "X":
+		return ch.vX
+	}
+	return ""
+}
+
+func (e *env) ercToken(tok string, ch *chanT) common.Address {
+	switch tok {
+	case "N":
+		return e.ercNat
+	case "A":
+		return e.ercBase
+	case "V":
+		return ch.ercV
+	}
+	return common.Address{}
+}
+
+func (e *env) fund(id int, tok string, l int, amt int64) {
 	s := e.s
 	a := e.addr(id)
-	if tok == "F" {
-		s.MintToken(a.Bytes(), sdk.NewCoin(fxtypes.DefaultDenom, sdkmath.NewInt(amt)))
-	} else {
-		ch := e.chans[c]
-		coin := sdk.NewCoin(ch.baseOut, sdkmath.NewInt(amt))
+	switch tok {
+	case "A":
+		coin := sdk.NewCoin(baseA, sdkmath.NewInt(amt))
 		s.MintToken(a.Bytes(), coin)
 		if _, err := s.App.Erc20Keeper.ConvertCoin(s.Ctx, &erc20types.MsgConvertCoin{Coin: coin, Receiver: a.Hex(), Sender: sdk.AccAddress(a.Bytes()).String()}); err != nil {
 			panic(err)
 		}
-		s.MintTokenToModule(transfertypes.ModuleName, sdk.NewCoin(ch.ibcOut, sdkmath.NewInt(amt)))
+		s.MintTokenToModule(transfertypes.ModuleName, sdk.NewCoin(e.chans[l].vA, sdkmath.NewInt(amt)))
+	default:
+		s.MintToken(a.Bytes(), sdk.NewCoin(bankDenom(tok, e.chans[l]), sdkmath.NewInt(amt)))
 	}
-	e.out.Emit(fmt.Sprintf("fund %d %s %d %d", id, tok, c, amt), "ok")
+	e.out.Emit(fmt.Sprintf("fund %d %s %d %d", id, tok, l, amt), "ok")
 }
 
 func (e *env) memo(kind string) string {
@@ -218,28 +515,38 @@ func (e *env) memo(kind string) string {
 	return ""
 }
 
-func (e *env) recv(c int, tok, rk string, to int, amt int64, memo string) {
+func (e *env) modAddr(name string) []byte { return e.s.App.AccountKeeper.GetModuleAddress(name) }
+
+func (e *env) recv(l int, tok, rk string, to int, amt int64, memo string, snd int) {
 	s := e.s
-	ch := e.chans[c]
+	ch := e.chans[l]
 	a := e.addr(to)
 	receiver := a.Hex()
-	if rk == "bech" {
+	switch rk {
+	case "bech":
 		receiver = sdk.AccAddress(a.Bytes()).String()
+	case "bad":
+		receiver = "not-an-address"
 	}
-	denom, vden := "", ""
+	// packet denom: a coin of this chain coming home carries the COUNTERPARTY's port/channel prefix
+	pd := ""
 	switch tok {
-	case "F":
-		denom = fmt.Sprintf("%s/%s/%s", ch.port, ch.id, fxtypes.DefaultDenom)
-	case "B":
-		denom, vden = ch.packetIn, ch.ibcIn
+	case "F", "N", "U":
+		pd = fmt.Sprintf("%s/%s/%s", port, ch.cp, bankDenom(tok, ch))
+	case "A":
+		pd = remoteA
+	case "V":
+		pd = remoteV
 	case "X":
-		denom, vden = "ufor", ch.ibcX
+		pd = remoteX
 	}
-	data := transfertypes.NewFungibleTokenPacketData(denom, strconv.FormatInt(amt, 10), remoteSender, receiver, e.memo(memo))
-	packet := channeltypes.NewPacket(data.GetBytes(), uint64(1+e.rng.Intn(1000)), ch.port, ch.id, ch.port, ch.id, clienttypes.NewHeight(100, 100000), 0)
+	den := bankDenom(tok, ch)
+	data := transfertypes.NewFungibleTokenPacketData(pd, strconv.FormatInt(amt, 10), remoteSender(snd), receiver, e.memo(memo))
+	packet := channeltypes.NewPacket(data.GetBytes(), uint64(1+e.rng.Intn(1000)), port, ch.cp, port, ch.id, clienttypes.NewHeight(100, 100000), 0)
 	mod, _ := s.App.IBCKeeper.Router.GetRoute(transfertypes.ModuleName)
-	e0 := e.erc(c, a)
-	fx0 := e.bal(a, fxtypes.DefaultDenom)
+	h0 := e.holdings(a)
+	m0 := e.marker()
+	rel0 := e.relSet()
 	saved := s.Ctx
 	cctx, write := saved.CacheContext()
 	ackS := "err"
@@ -254,54 +561,118 @@ func (e *env) recv(c int, tok, rk string, to int, amt int64, memo string) {
 	if res != "ok" {
 		ackS = "panic"
 	}
-	v := int64(0)
-	if vden != "" {
-		v = e.bal(a, vden)
+	esc := int64(0)
+	if tok == "F" || tok == "N" || tok == "U" {
+		esc = e.bal(transfertypes.GetEscrowAddress(port, ch.id), den)
 	}
-	e.out.Emit(fmt.Sprintf("recv %d %s %s %d %d %s", c, tok, rk, to, amt, memo),
-		fmt.Sprintf("ack=%s fx=%d v=%d b=%d e=%d m=%d", ackS, e.bal(a, fxtypes.DefaultDenom), v, e.bal(a, ch.baseOut), e.erc(c, a), e.marker()))
+	tm := int64(0)
+	if tok == "A" || tok == "V" || tok == "X" {
+		tm = e.bal(e.modAddr(transfertypes.ModuleName), den)
+	}
+	e.out.Emit(fmt.Sprintf("recv %d %s %s %d %d %s %d", l, tok, rk, to, amt, memo, snd),
+		fmt.Sprintf("ack=%s bk=%d e=%d esc=%d tm=%d sup=%d m=%d cs=%s", ackS, e.bal(a.Bytes(), den), e.ercOf(e.ercToken(tok, ch), a), esc, tm, e.supplyOf(e.ercToken(tok, ch)), e.marker(), e.callerLabel()))
+	e.checkLedger("recv")
 	e.out.Count("recv:" + tok + ":" + rk + ":" + memo + ":" + ackS)
+	e.out.Count(fmt.Sprintf("recv-channel:local%s", map[bool]string{true: "=", false: "!="}[ch.l == ch.r]+"counterparty"))
 	e.out.Nontrivial("recv|" + tok + "|" + rk + "|" + memo + "|" + ackS)
-	// monitor: hex receiver => exactly the amount as ERC-20 (native coin for FX), or nothing
-	de, dfx := e.erc(c, a)-e0, e.bal(a, fxtypes.DefaultDenom)-fx0
-	if ackS == "ok" && rk == "hex" && ((tok == "B" && (de != amt || dfx != 0)) || (tok == "F" && (dfx != amt || de != 0))) {
-		e.out.Violate(fmt.Sprintf("recv: success acknowledgement but credited erc20=%d fx=%d for amount %d (tok=%s memo=%s)", de, dfx, amt, tok, memo))
+
+	// ---- monitors -------------------------------------------------------------------------------------------
+	d, ds := delta(h0, e.holdings(a))
+	class := fmt.Sprintf("tok=%s receiver=%s memo=%s", tok, rk, memo)
+	if ackS == "ok" {
+		want := map[string]int64{}
+		switch {
+		case tok == "F":
+			want["bank:"+fxtypes.DefaultDenom] = amt
+		case rk == "hex":
+			// exactly the amount, as ERC-20, and nothing in bank form
+			switch tok {
+			case "N":
+				want["erc:nat"] = amt
+			case "A":
+				want["erc:base"] = amt
+			case "V":
+				want[fmt.Sprintf("erc:v%d", l)] = amt
+			default:
+				want["erc:<no ERC-20 token exists for this coin>"] = amt
+			}
+		default:
+			want["<a non-native coin can only be credited to a hex account>"] = amt
+		}
+		_, ws := delta(map[string]int64{}, want)
+		if ds != ws {
+			e.out.Violate(fmt.Sprintf("recv: success acknowledgement but the receiver's holdings changed by [%s], expected [%s] for amount %d (%s)", ds, ws, amt, class))
+		}
+	} else if len(d) != 0 {
+		e.out.Violate(fmt.Sprintf("recv: error acknowledgement but the receiver's holdings changed by [%s] (%s)", ds, class))
 	}
-	if ackS != "ok" && (de != 0 || dfx != 0) {
-		e.out.Violate(fmt.Sprintf("recv: error acknowledgement but balances changed erc20=%d fx=%d (tok=%s memo=%s)", de, dfx, tok, memo))
+	if !relFrame(rel0, e.relSet(), "", "") {
+		e.out.Violate("recv: an inbound packet changed the tracking records of outbound transfers")
+	}
+	if ackS == "ok" && memo == "callrev" {
+		e.out.Violate(fmt.Sprintf("recv: the memo call reverted but the packet was acknowledged successfully and its credit kept (%s)", class))
+	}
+	if ackS == "ok" && memo == "callok" && e.marker() != m0+1 {
+		e.out.Violate(fmt.Sprintf("recv: success acknowledgement but the memo call ran %d times (%s)", e.marker()-m0, class))
+	}
+	if e.marker() != m0 {
+		// a memo call ran: who was the caller?
+		c := e.lastCaller()
+		if e.callers[c] == nil {
+			e.callers[c] = map[string]bool{}
+		}
+		e.callers[c][fmt.Sprintf("%d/%d", l, snd)] = true
+		for id, la := range e.addrs {
+			if la == c {
+				e.out.Violate(fmt.Sprintf("memo call executed with the address of local account %d as sender", id))
+			}
+		}
+		if len(e.callers[c]) > 1 {
+			var ks []string
+			for k := range e.callers[c] {
+				ks = append(ks, k)
+			}
+			sort.Strings(ks)
+			e.violate("memo-sender-collision", fmt.Sprintf("memo-call sender collision: packets arriving on different local channels (local channel/original sender = %s) act as the same EVM account; the counterparties use the same channel id on their side", strings.Join(ks, " and ")))
+		}
+		e.out.Count("memo-call:" + map[bool]string{true: "local==counterparty", false: "local!=counterparty"}[ch.l == ch.r])
 	}
 }
 
-func (e *env) send(c, from int, tok string, amt int64, evm bool) {
+func (e *env) send(l, from int, tok string, amt int64, evm bool) {
 	s := e.s
-	ch := e.chans[c]
+	ch := e.chans[l]
 	a := e.addr(from)
 	sg := e.signers[from]
-	seq, _ := s.App.IBCKeeper.ChannelKeeper.GetNextSequenceSend(s.Ctx, ch.port, ch.id)
+	seq, _ := s.App.IBCKeeper.ChannelKeeper.GetNextSequenceSend(s.Ctx, port, ch.id)
 	recipient := common.BytesToAddress([]byte("remote-recipient-xxx")).Hex()
+	rel0 := e.relSet()
 	ok := false
 	saved := s.Ctx
 	cctx, write := saved.CacheContext()
 	s.Ctx = cctx
+	var timeoutTs uint64
 	res := hx.Try(func() error {
 		if !evm {
-			msg := transfertypes.NewMsgTransfer(ch.port, ch.id, sdk.NewCoin(fxtypes.DefaultDenom, sdkmath.NewInt(amt)),
-				sdk.AccAddress(a.Bytes()).String(), recipient, clienttypes.ZeroHeight(), uint64(cctx.BlockTime().UnixNano())+1e12, "")
+			timeoutTs = uint64(cctx.BlockTime().UnixNano()) + 1e12
+			msg := transfertypes.NewMsgTransfer(port, ch.id, sdk.NewCoin(bankDenom(tok, ch), sdkmath.NewInt(amt)),
+				sdk.AccAddress(a.Bytes()).String(), recipient, clienttypes.ZeroHeight(), timeoutTs, "")
 			if err := msg.ValidateBasic(); err != nil { // stateless validation of the transaction (zero amounts are rejected here)
 				return err
 			}
 			_, err := s.App.IBCTransferKeeper.Transfer(cctx, msg)
 			return err
 		}
-		target := fxtypes.MustStrToByte32(fmt.Sprintf("0x/%s/%s", ch.port, ch.id))
+		timeoutTs = uint64(cctx.BlockTime().UnixNano()) + uint64(s.App.Erc20Keeper.GetIbcTimeout(cctx))
+		target := fxtypes.MustStrToByte32(fmt.Sprintf("0x/%s/%s", port, ch.id))
 		token, value := common.Address{}, big.NewInt(amt)
-		if tok == "B" {
-			token, value = ch.erc20Out, big.NewInt(0)
+		if tok != "F" {
+			token, value = e.ercToken(tok, ch), big.NewInt(0)
 			ap, err := contract.GetFIP20().ABI.Pack("approve", crosschaintypes.GetAddress(), big.NewInt(amt))
 			if err != nil {
 				return err
 			}
-			if r, err := e.ethTx(sg, ch.erc20Out, big.NewInt(0), ap); err != nil || r.Failed() {
+			if r, err := e.ethTx(sg, token, big.NewInt(0), ap); err != nil || r.Failed() {
 				return fmt.Errorf("approve failed")
 			}
 		}
@@ -323,30 +694,60 @@ func (e *env) send(c, from int, tok string, amt int64, evm bool) {
 		write()
 		ok = true
 	}
-	op := fmt.Sprintf("send %d %d %s %d", c, from, tok, amt)
+	op := fmt.Sprintf("send %d %d %s %d", l, from, tok, amt)
 	if !evm {
-		op = fmt.Sprintf("csend %d %d %d", c, from, amt)
+		op = fmt.Sprintf("csend %d %d %s %d", l, from, tok, amt)
 	}
 	if !ok {
 		e.out.Emit(op, "fail")
-		e.out.Count("send:fail")
+		e.out.Count(fmt.Sprintf("send:fail:%s:evm=%v", tok, evm))
 		e.out.Nontrivial("send|" + tok + "|fail|" + firstWords(res))
+		if !relFrame(rel0, e.relSet(), "", "") {
+			e.out.Violate("send: a failed transfer changed the tracking records")
+		}
 		return
 	}
-	denom := fxtypes.DefaultDenom
-	if tok == "B" {
-		denom = fmt.Sprintf("%s/%s/ubo%d", ch.port, ch.id, c)
+	den := bankDenom(tok, ch)
+	pd := den
+	if tok == "A" {
+		pd = fmt.Sprintf("%s/%s/%s", port, ch.id, remoteA)
 	}
-	data := transfertypes.NewFungibleTokenPacketData(denom, strconv.FormatInt(amt, 10), sdk.AccAddress(a.Bytes()).String(), recipient, "")
-	st := &sent{ch: c, seq: seq, from: from, tok: tok, amt: amt, evm: evm,
-		packet: channeltypes.NewPacket(data.GetBytes(), seq, ch.port, ch.id, ch.port, ch.id, clienttypes.NewHeight(100, 100000), 0)}
+	data := transfertypes.NewFungibleTokenPacketData(pd, strconv.FormatInt(amt, 10), sdk.AccAddress(a.Bytes()).String(), recipient, "")
+	packet := channeltypes.NewPacket(data.GetBytes(), seq, port, ch.id, port, ch.cp, clienttypes.ZeroHeight(), timeoutTs)
+	if !bytes.Equal(channeltypes.CommitPacket(s.App.AppCodec(), packet), s.App.IBCKeeper.ChannelKeeper.GetPacketCommitment(s.Ctx, port, ch.id, seq)) {
+		e.out.Violate("harness: the rebuilt packet is not the one IBC core committed to (" + op + ")")
+	}
+	e.relKey(l, seq) // name the key this transfer's record would have
+	st := &sent{l: l, seq: seq, from: from, tok: tok, amt: amt, evm: evm, packet: packet}
 	e.sents = append(e.sents, st)
-	e.out.Emit(op, fmt.Sprintf("ok seq=%d e=%d fx=%d rel=%s", seq, e.erc(c, a), e.bal(a, fxtypes.DefaultDenom), e.rel()))
-	e.out.Count("send:ok:" + tok)
-	e.out.Nontrivial(fmt.Sprintf("send|%s|evm=%v|ok", tok, evm))
-	if evm && tok == "B" && !e.hasRel(c, seq) {
-		e.out.Violate("send: EVM-originated transfer has no tracking record")
+	esc, tm := int64(0), int64(0)
+	if tok == "A" {
+		tm = e.bal(e.modAddr(transfertypes.ModuleName), den)
+		den = baseA
+	} else {
+		esc = e.bal(transfertypes.GetEscrowAddress(port, ch.id), den)
 	}
+	e.out.Emit(op, fmt.Sprintf("ok seq=%d e=%d bk=%d esc=%d tm=%d rel=%s", seq, e.ercOf(e.ercToken(tok, ch), a), e.bal(a.Bytes(), den), esc, tm, e.rel()))
+	e.out.Count(fmt.Sprintf("send:ok:%s:evm=%v", tok, evm))
+	e.out.Nontrivial(fmt.Sprintf("send|%s|evm=%v|ok", tok, evm))
+	for _, x := range e.sents {
+		if x != st && x.done == "" && x.seq == seq && x.l != l {
+			e.out.Count("in-flight:same-sequence-on-two-channels")
+			if e.chans[x.l].r == l || ch.r == x.l {
+				e.out.Count("in-flight:same-sequence-on-crossed-channels")
+			}
+		}
+	}
+	want := e.relKey(l, seq)
+	if evm && tok != "F" {
+		if !relFrame(rel0, e.relSet(), want, "") {
+			e.out.Violate(fmt.Sprintf("send: EVM-originated transfer on local channel %d sequence %d: tracking records are [%s], expected exactly [%s] plus %d/%d", l, seq, e.rel(), e.relStr(rel0), l, seq))
+		}
+	} else if !relFrame(rel0, e.relSet(), "", "") {
+		e.out.Violate("send: a transfer that is not refundable in ERC-20 form changed the tracking records")
+	}
+	e.checkRecords(op)
+	e.checkLedger(op)
 }
 
 func firstWords(s string) string {
@@ -357,32 +758,32 @@ func firstWords(s string) string {
 }
 
 // settle = IBC core Acknowledgement / Timeout: only while the commitment exists, which is deleted first
-func (e *env) settle(c int, seq uint64, mode string) {
+func (e *env) settle(l int, seq uint64, mode string) {
 	s := e.s
-	ch := e.chans[c]
-	op := fmt.Sprintf("ack %d %d %s", c, seq, mode)
+	ch := e.chans[l]
+	op := fmt.Sprintf("ack %d %d %s", l, seq, mode)
 	if mode == "timeout" {
-		op = fmt.Sprintf("timeout %d %d", c, seq)
+		op = fmt.Sprintf("timeout %d %d", l, seq)
 	}
-	if !s.App.IBCKeeper.ChannelKeeper.HasPacketCommitment(s.Ctx, ch.port, ch.id, seq) {
-		before := e.rel()
-		e.out.Emit(op, "noop rel="+before)
+	if !s.App.IBCKeeper.ChannelKeeper.HasPacketCommitment(s.Ctx, port, ch.id, seq) {
+		e.out.Emit(op, "noop rel="+e.rel())
 		e.out.Count("settle:noop")
 		return
 	}
 	var st *sent
 	for _, x := range e.sents {
-		if x.ch == c && x.seq == seq {
+		if x.l == l && x.seq == seq {
 			st = x
 		}
 	}
 	a := e.addr(st.from)
-	e0 := e.erc(c, a)
+	h0 := e.holdings(a)
+	rel0 := e.relSet()
 	mod, _ := s.App.IBCKeeper.Router.GetRoute(transfertypes.ModuleName)
 	saved := s.Ctx
 	cctx, write := saved.CacheContext()
 	res := hx.Try(func() error {
-		cctx.KVStore(s.App.GetKey("ibc")).Delete(host.PacketCommitmentKey(ch.port, ch.id, seq))
+		cctx.KVStore(s.App.GetKey("ibc")).Delete(host.PacketCommitmentKey(port, ch.id, seq))
 		switch mode {
 		case "ok":
 			return mod.OnAcknowledgementPacket(cctx, st.packet, channeltypes.NewResultAcknowledgement([]byte{1}).Acknowledgement(), nil)
@@ -392,109 +793,335 @@ func (e *env) settle(c int, seq uint64, mode string) {
 			return mod.OnTimeoutPacket(cctx, st.packet, nil)
 		}
 	})
+	den := bankDenom(st.tok, ch)
+	class := fmt.Sprintf("tok=%s evm=%v mode=%s", st.tok, st.evm, mode)
 	if res != "ok" {
-		e.out.Emit(op, "error:"+firstWords(res))
-		e.out.Violate("settle: callback failed, acknowledgement/timeout can never be processed: " + res)
+		// the relayer's transaction fails and is rolled back: the packet stays committed
+		e.out.Emit(op, "stuck rel="+e.rel())
+		e.out.Count("settle:stuck:" + st.tok)
+		e.out.Nontrivial("settle|stuck|" + st.tok + "|" + mode)
+		switch {
+		case st.tok != "A" && e.bal(transfertypes.GetEscrowAddress(port, ch.id), den) < st.amt:
+			// a counterparty that returned more than it ever received emptied the escrow account: out of scope
+			e.out.Count("settle:stuck:escrow-drained-by-dishonest-counterparty")
+		case st.tok == "A" && ch.meta:
+			e.violate("alias-metadata-refund", fmt.Sprintf("settle: refund callback fails, the transfer can never be refunded: aliased voucher has bank metadata (%s): %s", class, firstWords(res)))
+		default:
+			e.out.Violate(fmt.Sprintf("settle: callback failed, acknowledgement/timeout can never be processed (%s): %s", class, res))
+		}
 		return
 	}
 	write()
 	st.done = mode
-	e.out.Emit(op, fmt.Sprintf("done e=%d b=%d fx=%d rel=%s", e.erc(c, a), e.bal(a, ch.baseOut), e.bal(a, fxtypes.DefaultDenom), e.rel()))
-	e.out.Count("settle:" + mode + ":" + st.tok)
+	esc, tm, v := int64(0), int64(0), int64(0)
+	bk := den
+	if st.tok == "A" {
+		tm = e.bal(e.modAddr(transfertypes.ModuleName), den)
+		v = e.bal(a.Bytes(), den)
+		bk = baseA
+	} else {
+		esc = e.bal(transfertypes.GetEscrowAddress(port, ch.id), den)
+	}
+	e.out.Emit(op, fmt.Sprintf("done e=%d bk=%d v=%d esc=%d tm=%d sup=%d rel=%s", e.ercOf(e.ercToken(st.tok, ch), a), e.bal(a.Bytes(), bk), v, esc, tm, e.supplyOf(e.ercToken(st.tok, ch)), e.rel()))
+	e.checkLedger(op)
+	e.out.Count("settle:" + mode + ":" + st.tok + fmt.Sprintf(":evm=%v", st.evm))
+	e.out.Count("settle-channel:" + map[bool]string{true: "local==counterparty", false: "local!=counterparty"}[ch.l == ch.r])
 	e.out.Nontrivial(fmt.Sprintf("settle|%s|%s|evm=%v", mode, st.tok, st.evm))
-	de := e.erc(c, a) - e0
-	st.refund += de
-	if e.hasRel(c, seq) {
-		e.out.Violate(fmt.Sprintf("relation: tracking record of an EVM-originated transfer is kept after %s (tok=%s)", map[string]string{"ok": "a success acknowledgement", "err": "an error acknowledgement", "timeout": "a timeout"}[mode], st.tok))
+
+	// ---- monitors -------------------------------------------------------------------------------------------
+	own := e.relKey(l, seq)
+	after := e.relSet()
+	modeTxt := map[string]string{"ok": "a success acknowledgement", "err": "an error acknowledgement", "timeout": "a timeout"}[mode]
+	if after[own] {
+		e.out.Violate(fmt.Sprintf("relation: tracking record of an EVM-originated transfer is kept after %s (local channel %d != counterparty channel %d: %v, %s)", modeTxt, ch.l, ch.r, ch.l != ch.r, class))
 	}
-	if st.evm && st.tok == "B" {
-		want := st.amt
-		if mode == "ok" {
-			want = 0
-		}
-		if de != want {
-			e.out.Violate(fmt.Sprintf("refund: EVM-originated transfer settled by %s refunded %d as ERC-20, expected %d", mode, de, want))
+	delete(after, own)
+	b0 := map[string]bool{}
+	for k := range rel0 {
+		if k != own {
+			b0[k] = true
 		}
 	}
+	if !relFrame(b0, after, "", "") {
+		e.out.Violate(fmt.Sprintf("relation: %s of local channel %d sequence %d touched the tracking record of another transfer: before [%s] after [%s]", modeTxt, l, seq, e.relStr(rel0), e.rel()))
+	}
+	e.checkRecords(op)
+	_, ds := delta(h0, e.holdings(a))
+	want := map[string]int64{}
+	if mode != "ok" {
+		switch {
+		case st.evm && st.tok == "A":
+			want["erc:base"] = st.amt
+		default:
+			want["bank:"+den] = st.amt
+		}
+	}
+	_, ws := delta(map[string]int64{}, want)
+	if ds != ws {
+		e.out.Violate(fmt.Sprintf("refund: transfer of %d settled by %s changed the sender's holdings by [%s], expected [%s] (%s)", st.amt, modeTxt, ds, ws, class))
+	}
+	if st.evm && st.tok == "A" {
+		st.refund += e.ercOf(e.ercBase, a) - h0["erc:base"]
+	}
+}
+
+func parsePending() map[string]bool {
+	m := map[string]bool{}
+	for _, c := range strings.Split(os.Getenv("C19_PENDING_KNOWN"), ",") {
+		if c = strings.TrimSpace(c); c != "" {
+			m[c] = true
+		}
+	}
+	return m
+}
+
+// exec runs one op line (corpus / replay files); chan lines are consumed by setup
+func (e *env) exec(line string) {
+	f := strings.Fields(line)
+	n := func(i int) int { v, _ := strconv.Atoi(f[i]); return v }
+	n64 := func(i int) int64 { v, _ := strconv.ParseInt(f[i], 10, 64); return v }
+	switch {
+	case len(f) == 1 && f[0] == "migrate":
+		e.migrate()
+	case len(f) == 2 && f[0] == "meta":
+		e.meta(n(1))
+	case len(f) == 3 && f[0] == "seq":
+		e.seqset(n(1), uint64(n(2)))
+	case len(f) == 5 && f[0] == "fund":
+		e.fund(n(1), f[2], n(3), n64(4))
+	case len(f) == 8 && f[0] == "recv":
+		e.recv(n(1), f[2], f[3], n(4), n64(5), f[6], n(7))
+	case len(f) == 5 && f[0] == "send":
+		e.send(n(1), n(2), f[3], n64(4), true)
+	case len(f) == 5 && f[0] == "csend":
+		e.send(n(1), n(2), f[3], n64(4), false)
+	case len(f) == 4 && f[0] == "ack":
+		e.settle(n(1), uint64(n(2)), f[3])
+	case len(f) == 3 && f[0] == "timeout":
+		e.settle(n(1), uint64(n(2)), "timeout")
+	default:
+		e.out.Emit(line, "bad-op")
+	}
+}
+
+// runFile replays an op file: `# …` comment lines, an optional `reset`, three `chan l r` lines, then ops
+func runFile(t *testing.T, out *hx.Out, rng *rand.Rand, pending map[string]bool, path string) {
+	var lines []string
+	for _, l := range hx.ReadLines(path) {
+		l = strings.TrimSpace(l)
+		if l == "" || strings.HasPrefix(l, "#") || strings.HasPrefix(l, "reset") {
+			continue
+		}
+		lines = append(lines, l)
+	}
+	var ls, cps []int
+	rest := lines[:0:0]
+	for _, l := range lines {
+		f := strings.Fields(l)
+		if len(f) == 3 && f[0] == "chan" {
+			a, _ := strconv.Atoi(f[1])
+			b, _ := strconv.Atoi(f[2])
+			ls, cps = append(ls, a), append(cps, b)
+			continue
+		}
+		rest = append(rest, l)
+	}
+	e := newEnv(t, out, rng, pending)
+	out.Reset()
+	e.setup(ls, cps)
+	for _, l := range rest {
+		e.exec(l)
+	}
+	e.finish()
+}
+
+func newEnv(t *testing.T, out *hx.Out, rng *rand.Rand, pending map[string]bool) *env {
+	return &env{s: hx.NewSuite(t, 1), rng: rng, out: out, signers: map[int]*helpers.Signer{}, addrs: map[int]common.Address{},
+		callers: map[common.Address]map[string]bool{}, derived: map[common.Address]string{}, pending: pending,
+		keyName: map[string][2]uint64{}}
+}
+
+// end of history: every failed / timed-out EVM-originated aliased transfer refunded exactly once
+func (e *env) finish() {
+	for _, x := range e.sents {
+		if x.evm && x.tok == "A" && (x.done == "err" || x.done == "timeout") && x.refund != x.amt {
+			e.out.Violate(fmt.Sprintf("refund: total ERC-20 refund %d of a failed EVM-originated transfer of %d", x.refund, x.amt))
+		}
+		if x.evm && x.tok == "A" && x.done == "ok" && x.refund != 0 {
+			e.out.Violate("refund: successfully acknowledged transfer was refunded")
+		}
+	}
+}
+
+// honest counterparty: what it can still return of a coin of this chain on channel l
+func (e *env) avail(l int, tok string) int64 {
+	ch := e.chans[l]
+	a := e.bal(transfertypes.GetEscrowAddress(port, ch.id), bankDenom(tok, ch))
+	for _, x := range e.sents {
+		if x.l == l && x.tok == tok && x.done == "" {
+			a -= x.amt
+		}
+	}
+	return a
+}
+
+func (e *env) generate(nops int) {
+	rng, out := e.rng, e.out
+	memos := []string{"none", "junk", "callok", "callrev", "callok"}
+	for from := 1; from <= 3; from++ {
+		e.fund(from, "A", e.order[rng.Intn(len(e.order))], int64(100+rng.Intn(900)))
+		e.fund(from, "A", e.order[rng.Intn(len(e.order))], int64(100+rng.Intn(900)))
+		e.fund(from, "F", 0, int64(1000+rng.Intn(9000)))
+		e.fund(from, "N", 0, int64(500+rng.Intn(900)))
+		e.fund(from, "U", 0, int64(500+rng.Intn(900)))
+	}
+	if rng.Intn(3) == 0 {
+		e.meta(e.order[rng.Intn(len(e.order))])
+	}
+	// sequences that make "<channel><sequence>" ambiguous between two channels: channel-1 seq 11.. / channel-11 seq 1..
+	for _, a := range e.order {
+		for _, b := range e.order {
+			sa, sb := strconv.Itoa(a), strconv.Itoa(b)
+			if a != b && strings.HasPrefix(sb, sa) && rng.Intn(3) != 0 {
+				tail, _ := strconv.Atoi(sb[len(sa):] + "1")
+				e.seqset(a, uint64(tail))
+			}
+		}
+	}
+	for j := 0; j < nops; j++ {
+		l := e.order[rng.Intn(len(e.order))]
+		switch r := rng.Intn(20); {
+		case r < 6:
+			amt := int64(1 + rng.Intn(300))
+			if rng.Intn(8) == 0 {
+				amt = []int64{0, 1, 5000}[rng.Intn(3)]
+			}
+			from := 1 + rng.Intn(3)
+			if rng.Intn(5) < 2 {
+				tok := []string{"F", "N", "U", "N"}[rng.Intn(4)]
+				if rng.Intn(8) == 0 { // boundary: exactly the balance / one more
+					amt = e.bal(e.addr(from).Bytes(), bankDenom(tok, e.chans[l])) + int64(rng.Intn(2))
+				}
+				e.send(l, from, tok, amt, false)
+			} else {
+				tok := []string{"A", "A", "A", "A", "F", "F", "N"}[rng.Intn(7)]
+				if tok == "A" && rng.Intn(8) == 0 {
+					amt = e.ercOf(e.ercBase, e.addr(from)) + int64(rng.Intn(2))
+				}
+				if tok == "A" && rng.Intn(3) == 0 {
+					// a second transfer on another channel whose next sequence is the same: equal sequences in flight
+					for _, ol := range e.order {
+						o := e.chans[ol]
+						so, _ := e.s.App.IBCKeeper.ChannelKeeper.GetNextSequenceSend(e.s.Ctx, port, o.id)
+						sl, _ := e.s.App.IBCKeeper.ChannelKeeper.GetNextSequenceSend(e.s.Ctx, port, e.chans[l].id)
+						if o.l != l && so == sl {
+							e.send(o.l, 1+rng.Intn(3), "A", int64(1+rng.Intn(200)), true)
+							break
+						}
+					}
+				}
+				e.send(l, from, tok, amt, true)
+			}
+		case r < 12:
+			rk := "hex"
+			if x := rng.Intn(12); x < 3 {
+				rk = "bech"
+			} else if x == 3 {
+				rk = "bad"
+			}
+			amt := int64(1 + rng.Intn(500))
+			if rng.Intn(10) == 0 {
+				amt = 0
+			}
+			tok := []string{"F", "N", "U", "V", "X", "A", "N", "V", "N", "U"}[rng.Intn(10)]
+			if tok == "F" || tok == "N" || tok == "U" {
+				// prefer a channel on which the counterparty holds some of the coin
+				for try := 0; try < 3 && e.avail(l, tok) <= 0; try++ {
+					l = e.order[rng.Intn(len(e.order))]
+				}
+				avail := e.avail(l, tok)
+				switch {
+				case rng.Intn(14) == 0: // over-returning counterparty
+					amt = avail + 1 + int64(rng.Intn(50))
+					out.Count("recv:dishonest-counterparty")
+				case avail <= 0:
+					tok = []string{"V", "A", "X"}[rng.Intn(3)]
+				case amt > avail || rng.Intn(4) == 0:
+					amt = avail
+				}
+			}
+			e.recv(l, tok, rk, 1+rng.Intn(4), amt, memos[rng.Intn(len(memos))], rng.Intn(nSenders))
+		case r == 12 && !e.chans[l].meta && rng.Intn(3) == 0:
+			if rng.Intn(4) == 0 {
+				e.migrate()
+			} else {
+				e.meta(l)
+			}
+		default:
+			// settle an in-flight packet; sometimes replay / duplicate an already settled or unknown one
+			var seq uint64 = uint64(1 + rng.Intn(6))
+			var open []*sent
+			for _, x := range e.sents {
+				if x.done == "" {
+					open = append(open, x)
+				}
+			}
+			if len(open) == 0 && rng.Intn(4) != 0 {
+				// nothing in flight: start a transfer instead of settling nothing
+				e.send(l, 1+rng.Intn(3), []string{"A", "A", "F", "N"}[rng.Intn(4)], int64(1+rng.Intn(200)), rng.Intn(3) != 0)
+				continue
+			}
+			switch {
+			case len(open) > 0 && rng.Intn(8) != 0:
+				x := open[rng.Intn(len(open))]
+				l, seq = x.l, x.seq
+			case len(e.sents) > 0 && rng.Intn(2) != 0:
+				x := e.sents[rng.Intn(len(e.sents))]
+				l, seq = x.l, x.seq
+			}
+			e.settle(l, seq, []string{"ok", "err", "timeout"}[rng.Intn(3)])
+			if rng.Intn(4) == 0 {
+				e.settle(l, seq, []string{"ok", "err", "timeout"}[rng.Intn(3)])
+			}
+		}
+	}
+	e.finish()
 }
 
 func TestC19(t *testing.T) {
 	seed := hx.Seed()
 	rng := rand.New(rand.NewSource(seed))
 	out := hx.NewOut()
-	defer out.Close("real middleware stack on two open channels: recv x {FX, bridged voucher, foreign voucher} x {hex, bech32} x {no memo, junk memo, memo call ok, memo call reverting} x amounts (0, 1, random); EVM-originated sends through the crossChain precompile (bridged ERC-20, FX) and cosmos-side sends; ack ok / ack error / timeout in random order with duplicates and replays on both channels. monitors: credit == amount or nothing; ERC-20 refund exactly once to the sender; tracking record gone after success, failure, timeout. non-trivial = distinct (op kind, token, receiver kind, memo, outcome)")
-	nseq := hx.N(10, 60)
+	defer out.Close("real middleware stack on three open channels whose local and counterparty ids are drawn independently (equal, crossed, two counterparties with the same id): recv x {FX, native coin with / without ERC-20 pair returning home, voucher with own pair, unregistered voucher, aliased voucher} x {hex, bech32, malformed} x {no memo, junk memo, memo call ok, memo call reverting} x amounts (0, 1, boundary of the escrow, random) x honest / over-returning counterparty; EVM-originated sends through the crossChain precompile (aliased ERC-20, FX, native ERC-20) and cosmos-side sends (FX, native coins); ack ok / ack error / timeout in random order with duplicates and replays, equal sequence numbers in flight on several channels; corpus of hand-written scenarios first. monitors: receiver's complete holdings change by exactly the amount in ERC-20 form or not at all; refund exactly once, to the sender, in the form the transfer started in; tracking record of exactly that (local channel, sequence) gone after success, failure, timeout and no other record touched; memo-call senders distinct per (local channel, original sender) and never a local account. non-trivial = distinct (op kind, token, receiver kind, memo, outcome)")
+	pending := parsePending()
+	if rf := hx.ReplayFile(); rf != "" {
+		runFile(t, out, rng, pending, rf)
+		return
+	}
+	if dir := os.Getenv("VERIF_CORPUS"); dir != "" {
+		ents, _ := os.ReadDir(dir)
+		for _, en := range ents {
+			if strings.HasSuffix(en.Name(), ".ops") {
+				runFile(t, out, rng, pending, dir+"/"+en.Name())
+				out.Count("corpus-file")
+			}
+		}
+	}
+	nseq := hx.N(36, 120)
+	// local ids / counterparty ids: equal, crossed, two counterparties with the same id, ids whose decimal
+	// representations are prefixes of one another (channel-1 / channel-11 / channel-111)
+	locals := [][]int{{0, 1, 2}, {0, 1, 2}, {1, 11, 2}, {0, 1, 2}, {1, 11, 111}, {0, 1, 10}}
+	topologies := [][]int{{1, 0, 2}, {0, 1, 2}, {11, 1, 1}, {1, 2, 0}, {5, 5, 7}, {1, 1, 1}}
 	for i := 0; i < nseq; i++ {
-		s := hx.NewSuite(t, 1)
-		e := &env{s: s, rng: rng, out: out, signers: map[int]*helpers.Signer{}, addrs: map[int]common.Address{}}
-		e.setup()
+		e := newEnv(t, out, rng, pending)
 		out.Reset()
-		toks := []string{"F", "B", "X"}
-		memos := []string{"none", "junk", "callok", "callrev"}
-		for from := 1; from <= 3; from++ {
-			e.fund(from, "B", rng.Intn(2), int64(100+rng.Intn(900)))
-			e.fund(from, "B", rng.Intn(2), int64(100+rng.Intn(900)))
-			e.fund(from, "F", 0, int64(1000+rng.Intn(9000)))
+		ls := locals[i%len(locals)]
+		cps := topologies[i%len(topologies)]
+		if rng.Intn(4) == 0 {
+			cps = []int{rng.Intn(4), rng.Intn(4), rng.Intn(4)}
 		}
-		nops := hx.N(40, 120)
-		for j := 0; j < nops; j++ {
-			c := rng.Intn(2)
-			switch r := rng.Intn(10); {
-			case r < 3:
-				amt := int64(1 + rng.Intn(300))
-				if rng.Intn(8) == 0 {
-					amt = []int64{0, 1, 5000}[rng.Intn(3)]
-				}
-				tok := []string{"B", "B", "F"}[rng.Intn(3)]
-				if rng.Intn(4) == 0 {
-					e.send(c, 1+rng.Intn(3), "F", amt, false)
-				} else {
-					e.send(c, 1+rng.Intn(3), tok, amt, true)
-				}
-			case r < 6:
-				rk := "hex"
-				if rng.Intn(4) == 0 {
-					rk = "bech"
-				}
-				amt := int64(1 + rng.Intn(500))
-				if rng.Intn(10) == 0 {
-					amt = 0
-				}
-				tok := toks[rng.Intn(3)]
-				if tok == "F" {
-					// an honest counterparty can only return FX it holds: escrow minus what is still in flight outbound
-					avail := e.bal(common.BytesToAddress(transfertypes.GetEscrowAddress(e.chans[c].port, e.chans[c].id)), fxtypes.DefaultDenom)
-					for _, x := range e.sents {
-						if x.ch == c && x.tok == "F" && x.done == "" {
-							avail -= x.amt
-						}
-					}
-					if amt > avail {
-						tok = "B"
-					}
-				}
-				e.recv(c, tok, rk, 10+rng.Intn(4), amt, memos[rng.Intn(4)])
-			default:
-				// settle an in-flight packet, or replay / duplicate an already settled or unknown one
-				var seq uint64 = uint64(1 + rng.Intn(6))
-				if len(e.sents) > 0 && rng.Intn(5) != 0 {
-					x := e.sents[rng.Intn(len(e.sents))]
-					c, seq = x.ch, x.seq
-				}
-				e.settle(c, seq, []string{"ok", "err", "timeout"}[rng.Intn(3)])
-				if rng.Intn(3) == 0 {
-					e.settle(c, seq, []string{"ok", "err", "timeout"}[rng.Intn(3)])
-				}
-			}
-		}
-		// end of history: every failed / timed-out EVM-originated bridged transfer refunded exactly once
-		for _, x := range e.sents {
-			if x.evm && x.tok == "B" && (x.done == "err" || x.done == "timeout") && x.refund != x.amt {
-				out.Violate(fmt.Sprintf("refund: total ERC-20 refund %d of a failed EVM-originated transfer of %d", x.refund, x.amt))
-			}
-			if x.evm && x.tok == "B" && x.done == "ok" && x.refund != 0 {
-				out.Violate("refund: successfully acknowledged transfer was refunded")
-			}
-		}
+		e.setup(ls, cps)
+		out.Count(fmt.Sprintf("topology:local%v:counterparty%v", ls, cps))
+		e.generate(hx.N(60, 140))
 	}
 }
